@@ -155,7 +155,7 @@ Qed.
 Lemma insert_validate_none : forall d tb rs batch,
   insert_validate d tb batch rs = None ->
   Forall (fun r => length r = ncols tb /\ notnull_okb tb r = true
-                   /\ fk_validate proj_colorder d (t_fks tb) r = None) rs
+                   /\ fk_validate proj d (t_fks tb) r = None) rs
   /\ (forall pk, t_pk tb = Some pk ->
         NoDup (map (proj pk) rs) /\
         forall r, In r rs -> ~ In (proj pk r) batch
@@ -170,7 +170,7 @@ Proof.
     destruct (t_pk tb) as [pk|] eqn:Epk.
     + destruct (key_mem (proj pk r) batch || key_mem (proj pk r) (map (proj pk) (t_rows tb))) eqn:Ed;
         [discriminate|].
-      destruct (fk_validate proj_colorder d (t_fks tb) r) eqn:Ef; [discriminate|].
+      destruct (fk_validate proj d (t_fks tb) r) eqn:Ef; [discriminate|].
       apply orb_false_iff in Ed. destruct Ed as [Ed1 Ed2].
       apply key_mem_false in Ed1. apply key_mem_false in Ed2.
       destruct (IH _ H) as [F K]. split; [constructor; auto|].
@@ -179,7 +179,7 @@ Proof.
         destruct (KK x Hx) as [K1 _]. apply K1. left. symmetry. exact Ex.
       * intros x [->|Hx]; [auto|]. destruct (KK x Hx) as [K1 K2]. split; [|exact K2].
         intros HI. apply K1. right. exact HI.
-    + destruct (fk_validate proj_colorder d (t_fks tb) r) eqn:Ef; [discriminate|].
+    + destruct (fk_validate proj d (t_fks tb) r) eqn:Ef; [discriminate|].
       destruct (IH _ H) as [F K]. split; [constructor; auto|]. intros pk0 E0. discriminate.
 Qed.
 
@@ -253,12 +253,6 @@ Proof.
   inversion E; subst d' ev r. clear E. split; [reflexivity|].
   destruct (insert_validate_none _ _ _ _ V) as [F K]. rewrite Forall_forall in F.
   pose proof (get_table_In _ _ _ G) as [Gin Gn].
-  assert (FKC : forall fk x, In fk (t_fks tb) -> In x rs -> proj_colorder (fk_cols fk) x = proj (fk_cols fk) x).
-  { intros fk x Hfk Hx. destruct (F x Hx) as [Hl _].
-    pose proof (std_fk _ _ _ (inv_std _ I) Gin Hfk) as S. unfold fk_standard in S.
-    apply andb_true_iff in S. destruct S as [S _]. apply andb_true_iff in S. destruct S as [S1 S2].
-    apply proj_colorder_asc; [exact S1|]. intros c Hc. rewrite forallb_forall in S2.
-    specialize (S2 c Hc). apply Nat.ltb_lt in S2. rewrite Hl. exact S2. }
   apply (append_rows_ok d t tb rs I R G).
   - intros x Hx. apply (F x Hx).
   - intros pk Hpk. destruct (K pk Hpk) as [ND KK]. split.
@@ -267,59 +261,34 @@ Proof.
       destruct (F x Hx) as [_ [Hnn _]]. apply (notnull_pk_nonnull tb); [exact Hnn|].
       apply (inv_pkcols _ I tb pk Gin Hpk).
   - intros x fk Hx Hfk HN. destruct (F x Hx) as [_ [_ Hv]].
-    apply (validated_row_has_parents proj_colorder d tb x I Gin); auto.
+    apply (validated_row_has_parents proj d tb x I Gin); auto.
 Qed.
 
 (* ------------------------------------------------------------------------------------ *)
 (** * INSERT ... SELECT *)
 
-Lemma bulk_loop_suffix : forall rows d dst seen n ev w r,
-  bulk_loop d dst rows seen n ev = (w, r) -> exists l, snd w = l ++ ev.
+Lemma bulk_validate_none : forall d tb rows seen,
+  bulk_validate d tb rows seen = None ->
+  Forall (fun r => fk_validate proj d (t_fks tb) r = None) rows
+  /\ (forall pk, t_pk tb = Some pk ->
+        NoDup (map (proj pk) rows) /\
+        forall r, In r rows -> ~ In (proj pk r) seen /\ ~ In (proj pk r) (map (proj pk) (t_rows tb))).
 Proof.
-  induction rows as [|x rows IH]; intros d dst seen n ev w r H; cbn in H.
-  - inversion H; subst. exists []. reflexivity.
-  - destruct (get_table d dst) as [tb|]; [|inversion H; subst; exists []; reflexivity].
-    destruct (match _ with Some k => _ | None => false end) eqn:Edup in H.
-    + inversion H; subst. exists [EvBulkPkCollision]. reflexivity.
-    + destruct (fk_validate proj d (t_fks tb) x); [inversion H; subst; exists []; reflexivity|].
-      apply IH in H. destruct H as [l E].
-      destruct (match t_pk tb with Some pk => Some (proj pk x) | None => None end) as [k|]; [destruct (has_null k)|];
-        cbn in E; rewrite E; [exists (l ++ [EvBulkNullKey]); rewrite <- app_assoc; reflexivity|exists l; reflexivity..].
-Qed.
-
-Lemma bulk_loop_ok : forall rows d dst seen n ev w r nc,
-  inv d -> RI d -> (forall tb, get_table d dst = Some tb -> ncols tb = nc) ->
-  (forall x, In x rows -> length x = nc) ->
-  bulk_loop d dst rows seen n ev = (w, r) -> snd w = ev -> inv (fst w) /\ RI (fst w).
-Proof.
-  induction rows as [|x rows IH]; intros d dst seen n ev w r nc I R NC HA H Hc; cbn in H.
-  - inversion H; subst. auto.
-  - destruct (get_table d dst) as [tb|] eqn:G; [|inversion H; subst; auto].
-    pose proof (get_table_In _ _ _ G) as [Gin Gn].
-    destruct (match match t_pk tb with Some pk => Some (proj pk x) | None => None end, t_pk tb with
-              | Some k, Some pk => key_mem k seen || key_mem k (map (proj pk) (t_rows tb))
-              | _, _ => false end) eqn:Edup.
-    + inversion H as [[Hw Hr]]. rewrite <- Hw in Hc. cbn in Hc. exfalso. assert (X : length (EvBulkPkCollision :: ev) = length ev) by (rewrite Hc; reflexivity). cbn in X. lia.
-    + destruct (fk_validate proj d (t_fks tb) x) eqn:Ef; [inversion H; subst; auto|].
-      destruct (bulk_loop_suffix _ _ _ _ _ _ _ _ H) as [l El]. rewrite Hc in El.
-      (* the ghost log did not grow: the key is NULL-free *)
-      assert (NK : forall pk, t_pk tb = Some pk -> has_null (proj pk x) = false).
-      { intros pk Hpk. rewrite Hpk in El. destruct (has_null (proj pk x)) eqn:En; [|reflexivity].
-        exfalso. cbn in El. assert (X : length ev = length (l ++ EvBulkNullKey :: ev)) by (rewrite <- El; reflexivity).
-        rewrite app_length in X. cbn in X. lia. }
-      assert (EV : (let nullkey := match match t_pk tb with Some pk => Some (proj pk x) | None => None end with
-                                   | Some k => has_null k | None => false end in
-                    if nullkey then EvBulkNullKey :: ev else ev) = ev).
-      { destruct (t_pk tb) as [pk|] eqn:Epk; cbn; [rewrite (NK pk eq_refl)|]; reflexivity. }
-      cbn zeta in H. cbn zeta in EV. rewrite EV in H.
-      destruct (append_rows_ok d dst tb [x] I R G) as [I1 R1].
-      * intros y [<-|[]]. rewrite (NC tb eq_refl). apply HA. left. reflexivity.
-      * intros pk Hpk. split; [cbn; repeat constructor; intros []|]. intros y [<-|[]]. split; [|apply NK; exact Hpk].
-        rewrite Hpk in Edup. apply orb_false_iff in Edup. destruct Edup as [_ E2]. apply key_mem_false in E2. exact E2.
-      * intros y fk [<-|[]] Hfk HN. eapply (validated_row_has_parents proj d tb x); eauto.
-      * eapply (IH _ _ _ _ _ _ _ nc I1 R1); [| |exact H|exact Hc].
-        -- intros tb' G'. rewrite (get_set_rows_same _ _ _ _ G) in G'. inversion G'; subst tb'. cbn. apply (NC tb eq_refl).
-        -- intros y Hy. apply HA. right. exact Hy.
+  intros d tb rows. induction rows as [|r rows IH]; intros seen H.
+  - split; [constructor|]. intros pk _. split; [constructor|intros r []].
+  - cbn [bulk_validate] in H. destruct (t_pk tb) as [pk|] eqn:Epk.
+    + destruct (key_mem (proj pk r) seen || key_mem (proj pk r) (map (proj pk) (t_rows tb))) eqn:Ed; [discriminate|].
+      destruct (fk_validate proj d (t_fks tb) r) eqn:Ef; [discriminate|].
+      apply orb_false_iff in Ed. destruct Ed as [Ed1 Ed2].
+      apply key_mem_false in Ed1. apply key_mem_false in Ed2.
+      destruct (IH _ H) as [F K]. split; [constructor; auto|].
+      intros pk0 E0. inversion E0; subst pk0. destruct (K pk eq_refl) as [ND KK]. split.
+      * cbn. constructor; [|exact ND]. intros HI. apply in_map_iff in HI. destruct HI as [x [Ex Hx]].
+        destruct (KK x Hx) as [K1 _]. apply K1. left. symmetry. exact Ex.
+      * intros x [->|Hx]; [auto|]. destruct (KK x Hx) as [K1 K2]. split; [|exact K2].
+        intros HI. apply K1. right. exact HI.
+    + destruct (fk_validate proj d (t_fks tb) r) eqn:Ef; [discriminate|].
+      destruct (IH _ H) as [F K]. split; [constructor; auto|]. intros pk0 E0. discriminate.
 Qed.
 
 Theorem exec_insert_select_ok : forall d dst src simple sel d' ev r,
@@ -333,23 +302,24 @@ Proof.
     destruct (exec_insert_ok _ _ _ _ _ _ I R E') as [_ H]. exact H. }
   destruct (if simple && negb (Nat.eqb src dst) then get_table d src else None) as [st|] eqn:Gs; [|auto].
   destruct (bulk_compatible dt st) eqn:Ec; [|auto].
-  destruct (bulk_loop d dst (t_rows st) [] 0 []) as [[dw evw] r0] eqn:EB.
   assert (Gs' : get_table d src = Some st) by (destruct (simple && negb (Nat.eqb src dst)); [exact Gs|discriminate]).
-  pose proof (get_table_In _ _ _ Gs') as [Gsin _].
-  assert (OK : evw = [] -> inv dw /\ RI dw).
-  { intros Hw. apply (bulk_loop_ok _ _ _ _ _ _ _ _ (ncols dt) I R) in EB; auto.
-    - intros tb G. rewrite Gd in G. inversion G. reflexivity.
-    - intros x Hx. rewrite (inv_arity _ I st x Gsin Hx). unfold bulk_compatible in Ec.
-      apply andb_true_iff in Ec. destruct Ec as [Ec _]. apply Nat.eqb_eq in Ec. symmetry. exact Ec. }
-  assert (PM : forall e0, (partial_mark d (dw, evw), e0) = ((d', ev), r) -> inv d' /\ RI d').
-  { intros e0 E'. unfold partial_mark in E'. cbn [fst snd log] in E'. destruct (db_rows_eqb d dw).
-    - inversion E'; subst. apply OK. reflexivity.
-    - inversion E'; subst. discriminate. }
-  destruct r0.
-  - inversion E; subst. apply OK. reflexivity.
-  - eapply PM. exact E.
-  - eapply PM. exact E.
-  - eapply PM. exact E.
+  pose proof (get_table_In _ _ _ Gs') as [Gsin _]. pose proof (get_table_In _ _ _ Gd) as [Gdin _].
+  unfold bulk_transfer in E.
+  destruct (bulk_validate d dt (t_rows st) []) as [e|] eqn:V; [inversion E; subst; auto|].
+  destruct (bulk_validate_none _ _ _ _ V) as [F K]. rewrite Forall_forall in F.
+  inversion E as [[Hd He Hr]]. clear E.
+  (* the ghost log is empty: the copied keys are NULL-free *)
+  assert (NK : forall pk x, t_pk dt = Some pk -> In x (t_rows st) -> has_null (proj pk x) = false).
+  { intros pk x Hpk Hx. rewrite Hpk in He. destruct (existsb (fun r0 => has_null (proj pk r0)) (t_rows st)) eqn:Ex.
+    - rewrite <- He in Hev. discriminate.
+    - destruct (has_null (proj pk x)) eqn:En; [|reflexivity]. exfalso.
+      apply Bool.not_true_iff_false in Ex. apply Ex. apply existsb_exists. exists x. auto. }
+  apply (append_rows_ok d dst dt (t_rows st) I R Gd).
+  - intros x Hx. rewrite (inv_arity _ I st x Gsin Hx). unfold bulk_compatible in Ec.
+    apply andb_true_iff in Ec. destruct Ec as [Ec _]. apply Nat.eqb_eq in Ec. symmetry. exact Ec.
+  - intros pk Hpk. destruct (K pk Hpk) as [ND KK]. split; [exact ND|].
+    intros x Hx. split; [apply (KK x Hx)|apply (NK pk x Hpk Hx)].
+  - intros x fk Hx Hfk HN. eapply (validated_row_has_parents proj d dt x); eauto.
 Qed.
 
 (* ------------------------------------------------------------------------------------ *)
@@ -526,23 +496,21 @@ Proof.
 Qed.
 
 Theorem exec_drop_ok : forall d t d' ev r,
-  inv d -> RI d -> exec_drop d t = ((d', ev), r) -> ev = [] -> inv d' /\ RI d'.
+  inv d -> RI d -> exec_drop d t = ((d', ev), r) -> ev = [] /\ inv d' /\ RI d'.
 Proof.
-  intros d t d' ev r I R E Hev. unfold exec_drop in E.
+  intros d t d' ev r I R E. unfold exec_drop in E.
   destruct (get_table d t) as [tb|] eqn:G; [|inversion E; subst; auto].
-  destruct (referenced_by_other d t) eqn:Er; inversion E; subst; [discriminate|]. clear E.
+  destruct (referenced_by_other d t) eqn:Er; inversion E; subst; [auto|]. clear E. split; [reflexivity|].
   set (d' := filter (fun x => negb (Nat.eqb (t_name x) t)) d).
   assert (IN : forall x, In x d' <-> In x d /\ t_name x <> t).
   { intros x. unfold d'. rewrite filter_In. rewrite negb_true_iff, Nat.eqb_neq. tauto. }
   (* nobody left references the dropped table *)
   assert (NP : forall x fk, In x d' -> In fk (t_fks x) -> fk_parent fk <> t).
   { intros x fk Hx Hfk Hp. apply IN in Hx. destruct Hx as [Hx Hn].
-    unfold referenced_by_other in Er.
-    assert (X : existsb (fun t0 => negb (Nat.eqb (t_name t0) t) && existsb (fun fk0 => Nat.eqb (fk_parent fk0) t) (t_fks t0)) d = true).
-    { apply existsb_exists. exists x. split; [exact Hx|]. apply andb_true_iff. split.
-      - apply negb_true_iff. apply Nat.eqb_neq. exact Hn.
-      - apply existsb_exists. exists fk. split; [exact Hfk|apply Nat.eqb_eq; exact Hp]. }
-    congruence. }
+    unfold referenced_by_other in Er. apply Bool.not_true_iff_false in Er. apply Er.
+    apply existsb_exists. exists x. split; [exact Hx|]. apply andb_true_iff. split.
+    - apply negb_true_iff. apply Nat.eqb_neq. exact Hn.
+    - apply existsb_exists. exists fk. split; [exact Hfk|apply Nat.eqb_eq; exact Hp]. }
   split.
   - constructor.
     + unfold names, d'. apply NoDup_map_filter. apply (inv_names _ I).
@@ -561,6 +529,11 @@ Proof.
     destruct (R ct fk row Hct Hfk Hrow HN) as [pt [pr [Gp H]]]. exists pt, pr.
     unfold d'. rewrite get_table_drop by exact Hne. auto.
 Qed.
+
+(** DROP TABLE of a table that another table's FOREIGN KEY references is refused and changes nothing *)
+Theorem drop_referenced_rejected : forall d t tb,
+  get_table d t = Some tb -> referenced_by_other d t = true -> exec_drop d t = ((d, []), RErr EConstraint).
+Proof. intros d t tb G H. unfold exec_drop. rewrite G, H. reflexivity. Qed.
 
 (* ------------------------------------------------------------------------------------ *)
 (** * ALTER TABLE ADD FOREIGN KEY *)
@@ -585,6 +558,12 @@ Proof.
   assert (E : ncols x' = ncols x) by (destruct Hx as [->| ->]; reflexivity). rewrite E.
   rewrite get_add_fk. destruct (get_table d (fk_parent fk0)) as [pt|]; cbn; [|reflexivity].
   destruct (Nat.eqb (t_name pt) t); reflexivity.
+Qed.
+
+Lemma nat_nodupb_NoDup : forall l, nat_nodupb l = true -> NoDup l.
+Proof.
+  induction l as [|a l IH]; intros H; [constructor|]. cbn in H. apply andb_true_iff in H. destruct H as [H1 H2].
+  constructor; [|auto]. apply negb_true_iff in H1. apply nat_mem_false in H1. exact H1.
 Qed.
 
 Theorem exec_add_fk_ok : forall d t fk d' ev r,
